@@ -16,6 +16,7 @@ from executorlib.standalone.inputcheck import (
     check_oversubscribe,
     check_pmi,
     check_resource_dict_is_empty,
+    check_resource_limits,
     validate_number_of_cores,
 )
 from executorlib.standalone.interactive.spawner import (
@@ -206,6 +207,12 @@ def create_executor(
         backend = "flux_allocation"
     check_pmi(backend=backend, pmi=flux_executor_pmi_mode)
     cores_per_worker = resource_dict["cores"]
+    if not block_allocation:
+        check_resource_limits(
+            max_cores=max_cores,
+            max_workers=max_workers,
+            cores_per_worker=cores_per_worker,
+        )
     resource_dict["cache_directory"] = cache_directory
     resource_dict["hostname_localhost"] = hostname_localhost
     if backend == "flux_allocation":
